@@ -97,6 +97,14 @@ func c09(e *Env) {
 		if op == 0 || c.Choose("switchks", 6) == 5 {
 			ks := c09Keyspaces[(cell/(len(c09Qualifiers)*len(c09Tables))+c.Choose("ksoff", len(c09Keyspaces)))%len(c09Keyspaces)]
 			if ks != "" {
+				// sometimes a node answers nothing while the USE is being decided: a session that
+				// does not exist yet then fails to connect (time-out), the USE fails with the proxy's
+				// own error, and the connection's current keyspace must be what it was before
+				var stalled *world.Node
+				if c.Choose("c09stall", 6) == 5 {
+					stalled = w.Nodes[c.Choose("c09stallnode", len(w.Nodes))]
+					stalled.Stalled = true
+				}
 				r := cl.Send("use", "", world.QueryMsg("USE "+ks, primitive.ConsistencyLevelOne), nil)
 				if !w.RunUntil(func() bool { return len(r.Replies) > 0 }, 5*time.Minute) {
 					if !w.Stopped() {
@@ -104,15 +112,26 @@ func c09(e *Env) {
 					}
 					return
 				}
-				if _, ok := replyMsg(r).(*message.SetKeyspaceResult); !ok {
-					w.Violate("c09-use", "use-failed", fmt.Sprintf("USE %s failed: %v", ks, replyMsg(r)))
-					return
+				timedOut := false
+				if stalled != nil {
+					stalled.Unstall()
+					w.RunUntil(func() bool { return false }, 3*time.Second)
+					if _, failed := replyMsg(r).(message.Error); failed {
+						e.Res.Stats["probe.c09.use_failed_by_timeout"]++
+						timedOut = true
+					}
 				}
-				if len(w.Attempts["use:"+ks]) > 0 {
-					w.Violate("c09-use", "use-forwarded", "USE reached a backend as a client request")
-					return
+				if !timedOut {
+					if _, ok := replyMsg(r).(*message.SetKeyspaceResult); !ok {
+						w.Violate("c09-use", "use-failed", fmt.Sprintf("USE %s failed: %v", ks, replyMsg(r)))
+						return
+					}
+					if len(w.Attempts["use:"+ks]) > 0 {
+						w.Violate("c09-use", "use-forwarded", "USE reached a backend as a client request")
+						return
+					}
+					current[ci] = ks
 				}
-				current[ci] = ks
 			}
 		}
 		cell++
